@@ -124,13 +124,19 @@ pub struct Dg {
     pub bytes: Rc<[u8]>,
     pub port: u32,
     pub mask: u16,
+    /// writerSN of the (last) DATA / DATA_FRAG submessage, 0 if none
+    pub sn: i64,
+    /// fragmentStartingNum of the (last) DATA_FRAG submessage, 0 if none
+    pub frag_no: u32,
 }
 
 /// Submessage kinds of a datagram, read from the submessage headers only (RTPS 2.x §8.3.3/§9.4.5).
-pub fn scan(b: &[u8]) -> u16 {
+pub fn scan(b: &[u8]) -> (u16, i64, u32) {
     let mut mask = 0;
+    let mut sn = 0i64;
+    let mut frag_no = 0u32;
     if b.len() < 20 || &b[0..4] != b"RTPS" {
-        return 0;
+        return (0, 0, 0);
     }
     let mut p = 20;
     while p + 4 <= b.len() {
@@ -139,9 +145,24 @@ pub fn scan(b: &[u8]) -> u16 {
         let len = if le { u16::from_le_bytes([b[p + 2], b[p + 3]]) } else { u16::from_be_bytes([b[p + 2], b[p + 3]]) } as usize;
         let body = p + 4;
         let end = if len == 0 && id != 0x01 && id != 0x09 { b.len() } else { (body + len).min(b.len()) };
+        let u32_at = |o: usize| -> u32 {
+            if o + 4 > b.len() {
+                return 0;
+            }
+            let x = [b[o], b[o + 1], b[o + 2], b[o + 3]];
+            if le { u32::from_le_bytes(x) } else { u32::from_be_bytes(x) }
+        };
         match id {
-            0x15 => mask |= M_DATA,
-            0x16 => mask |= M_DATA_FRAG,
+            // extraFlags 2, octetsToInlineQos 2, readerId 4, writerId 4, writerSN 8 (high, low), [fragmentStartingNum 4]
+            0x15 => {
+                mask |= M_DATA;
+                sn = ((u32_at(body + 12) as i32 as i64) << 32) | u32_at(body + 16) as i64;
+            }
+            0x16 => {
+                mask |= M_DATA_FRAG;
+                sn = ((u32_at(body + 12) as i32 as i64) << 32) | u32_at(body + 16) as i64;
+                frag_no = u32_at(body + 20);
+            }
             0x07 => mask |= M_HB,
             0x08 => mask |= M_GAP,
             0x12 => mask |= M_NACK_FRAG,
@@ -166,7 +187,7 @@ pub fn scan(b: &[u8]) -> u16 {
         }
         p = end;
     }
-    mask
+    (mask, sn, frag_no)
 }
 
 #[derive(Default)]
@@ -178,11 +199,11 @@ pub struct Net {
 impl WriteMessage for Net {
     fn write_message(&self, buf: &[u8], locators: &[Locator]) {
         let bytes: Rc<[u8]> = Rc::from(buf);
-        let mask = scan(buf);
+        let (mask, sn, frag_no) = scan(buf);
         for l in locators {
             let mut log = self.log.borrow_mut();
             self.queue.borrow_mut().push(log.len());
-            log.push(Dg { bytes: bytes.clone(), port: l.port(), mask });
+            log.push(Dg { bytes: bytes.clone(), port: l.port(), mask, sn, frag_no });
         }
     }
 }
@@ -257,6 +278,14 @@ pub struct World {
     pub flags: Flags,
     /// sequence number of the last DATA_FRAG delivered per port (interleaving classification)
     last_frag_sn: BTreeMap<u32, i64>,
+    colocated: bool,
+    /// best-effort reassembly bookkeeping per (port, sn): fragment numbers delivered, poisoned, complete
+    be_frags: BTreeMap<(u32, i64), (BTreeSet<u32>, bool, bool)>,
+    /// per port: highest sequence number of a sample that arrived completely (DATA, or all fragments of it)
+    be_max_complete: BTreeMap<u32, i64>,
+    /// per port: fragmented samples a best-effort reader must present: every fragment arrived (in any order, any
+    /// multiplicity, interleaved or not) and no later sample had arrived completely before
+    pub be_must: BTreeMap<u32, BTreeSet<i64>>,
 }
 
 impl World {
@@ -305,6 +334,10 @@ impl World {
             deliveries: 0,
             flags: Flags::default(),
             last_frag_sn: BTreeMap::new(),
+            colocated: sc.colocated,
+            be_frags: BTreeMap::new(),
+            be_max_complete: BTreeMap::new(),
+            be_must: BTreeMap::new(),
         }
     }
 
@@ -426,6 +459,9 @@ impl World {
                 *m = id;
             }
         }
+        if dg.port != W_PORT && !self.colocated {
+            self.track_best_effort(&dg);
+        }
         if dg.port == W_PORT {
             self.to_writer(&dg.bytes);
         } else {
@@ -433,6 +469,50 @@ impl World {
                 if self.readers[i].port == dg.port {
                     self.to_reader(i, &dg.bytes, dg.port);
                 }
+            }
+        }
+    }
+
+    /// Ground truth for the C05 demand on a BEST_EFFORT reader (one reader per participant): which fragmented samples
+    /// have arrived completely while nothing later had.
+    fn track_best_effort(&mut self, dg: &Dg) {
+        let port = dg.port;
+        if !self.readers.iter().any(|r| r.port == port && !r.reliable) {
+            return;
+        }
+        if dg.mask & (M_GAP | M_HB) != 0 {
+            // these may legitimately move the reader forward: no demand on what is incomplete now
+            for ((p, _), e) in self.be_frags.iter_mut() {
+                if *p == port && !e.2 {
+                    e.1 = true;
+                }
+            }
+        }
+        let sn = dg.sn;
+        if sn < 1 || sn as usize > self.published.len() {
+            return;
+        }
+        let maxc = self.be_max_complete.get(&port).copied().unwrap_or(0);
+        if dg.mask & M_DATA != 0 {
+            self.be_max_complete.insert(port, maxc.max(sn));
+        } else if dg.mask & M_DATA_FRAG != 0 {
+            let total = self.published[sn as usize - 1].len().div_ceil(self.frag) as u32;
+            let e = self.be_frags.entry((port, sn)).or_insert_with(|| (BTreeSet::new(), false, false));
+            if e.2 {
+                return;
+            }
+            if maxc > sn {
+                e.1 = true;
+            }
+            if dg.frag_no >= 1 && dg.frag_no <= total {
+                e.0.insert(dg.frag_no);
+            }
+            if e.0.len() as u32 == total {
+                e.2 = true;
+                if !e.1 {
+                    self.be_must.entry(port).or_default().insert(sn);
+                }
+                self.be_max_complete.insert(port, maxc.max(sn));
             }
         }
     }
@@ -634,6 +714,8 @@ pub struct Outcome {
     pub colocated: bool,
     pub any_reliable: bool,
     pub any_best_effort: bool,
+    /// a best-effort reader was owed a fragmented sample (C05 completeness demand applied)
+    pub be_frag_due: bool,
 }
 
 thread_local! {
@@ -735,13 +817,15 @@ pub fn run_with(sc: &Scenario, inject: Option<(&[Dg], usize, usize)>) -> Outcome
     out.flags = w.flags.clone();
     out.nontrivial = nontrivial_rule(prop, &w.flags);
     out.datagrams = w.net.log.borrow().len();
+    out.be_frag_due = w.be_must.values().any(|m| !m.is_empty());
     out.presented = w.readers.iter().map(|r| r.presented.iter().map(|p| p.sn).collect()).collect();
     if r.is_err() {
         let (loc, msg) = LAST_PANIC.with(|p| p.borrow_mut().take()).unwrap_or_default();
         match repo_file(&loc) {
             Some(f) => {
                 out.verdict = Some((
-                    format!("{prop}:panic:{}:{}", f, normalize_msg(&msg)),
+                    // two readers in one participant: a situation (and root cause) of its own, see the oracle
+                    format!("{prop}:panic:{}:{}{}", f, normalize_msg(&msg), if sc.colocated { " [colocated readers]" } else { "" }),
                     format!("dust-dds panicked at {loc}: {msg} (legal traffic between its own writer and reader objects)"),
                 ));
             }
@@ -791,6 +875,20 @@ fn oracle(sc: &Scenario, w: &World, out: &mut Outcome) {
                 fail(out, format!("{prop}:order:{shape}"), format!("{kind} reader {ri} presented sample {} after sample {}", p.sn, last));
             }
             last = last.max(p.sn);
+        }
+        if !rd.reliable && prop == "C05" {
+            if let Some(m) = w.be_must.get(&rd.port) {
+                if let Some(sn) = m.iter().find(|s| !seen.contains(s)) {
+                    fail(
+                        out,
+                        format!("{prop}:missing:best-effort-frag"),
+                        format!(
+                            "best-effort reader {ri} never presented the fragmented sample {sn} ({} bytes, fragment size {f}) although every one of its fragments arrived (duplicated/reordered/interleaved at most) and no later sample had arrived completely before",
+                            w.published[*sn as usize - 1].len()
+                        ),
+                    );
+                }
+            }
         }
         if rd.reliable {
             let missing: Vec<i64> = must.iter().filter(|s| !seen.contains(s)).copied().collect();
